@@ -28,12 +28,22 @@ def _dispatch(prop, t):
             "evaluate() = the specification's transitive substitution, keys()/explain() include every key it reads; "
             "non-trivial = the graph or the dictionary contains a template",
             ["TLC + Json module trusted", "confectioner modelled as it behaves", "template parameters never contain braces"])
-    if prop in ("C05", "C10", "C11", "C03", "C08", "C01", "C02", "C06", "C12", "C16"):
+    if prop in ("C05", "C10", "C11", "C03", "C08", "C01", "C02", "C06", "C12", "C16", "C19", "C20"):
         from . import check_expr
         fams = {"C05": ["combinators"], "C10": ["combinators", "options:light"], "C11": ["combinators", "options:light"],
                 "C03": ["combinators", "options:light", "presets:light"], "C08": ["presets"], "C01": ["caching", "presets:light"],
-                "C02": ["caching"], "C06": ["combinators", "caching"], "C12": ["failing", "failing4"], "C16": ["caching"]}[prop]
-        return check_expr.check(prop, t, fams, check_expr.RULES[prop], check_expr.ASSUME)
+                "C02": ["caching"], "C06": ["combinators", "caching"], "C12": ["failing", "failing4"], "C16": ["caching"], "C19": ["classes"], "C20": ["pickling"]}[prop]
+        extra = None
+        if prop == "C10":
+            from . import check_pipelines
+            extra = check_pipelines.run
+        if prop == "C20":
+            from . import verdicts
+            extra = verdicts.c20_fixed_probes
+        return check_expr.check(prop, t, fams, check_expr.RULES[prop], check_expr.ASSUME, extra=extra)
+    if prop == "C13":
+        from . import check_pipelines
+        return check_pipelines.main(t)
     if prop == "C07":
         from . import check_dispatch
         return check_dispatch.main(t)
@@ -54,6 +64,21 @@ def _replay(path):
     if kind == "runtime":
         from . import check_runtime
         return check_runtime.replay_file(doc)
+    if kind == "pickle-probe":
+        import pickle
+        from . import common, picklelib
+        common.import_labrea()
+        try:
+            pickle.loads(pickle.dumps(getattr(picklelib, doc["name"]), protocol=doc["proto"]))
+            print("replay: %s now pickles" % doc["name"])
+            return 0
+        except Exception as e:  # noqa
+            print("replay: pickling %s fails: %s" % (doc["name"], e))
+            print("VIOLATION property=C20 replay=%s" % doc.get("_path"))
+            return 1
+    if kind == "pipeline":
+        from . import check_pipelines
+        return check_pipelines.replay_file(doc)
     if kind == "interface":
         from . import check_dispatch
         return check_dispatch.replay_file(doc)
